@@ -6,3 +6,13 @@ pub assume_specification<'a>[ Chars::<'a>::as_str ](c: &Chars<'a>) -> (r: &'a st
     ensures r@ == c.remaining();
 //@trusted assume_specification <Chars as Clone>::clone preserves remaining()/decrease()
 //@trusted assume_specification Chars::as_str returns the remaining chars
+pub assume_specification[ <u32 as From<bool>>::from ](b: bool) -> (r: u32)
+    ensures r == (if b { 1u32 } else { 0u32 });
+//@trusted assume_specification <u32 as From<bool>>::from(b) == if b {1} else {0}
+pub assume_specification<T: PartialEq, E: PartialEq>[ <Result<T, E> as PartialEq>::eq ](a: &Result<T, E>, b: &Result<T, E>) -> (r: bool)
+    ensures (T::obeys_eq_spec() && E::obeys_eq_spec()) ==> r == (match (*a, *b) {
+        (Ok(x), Ok(y)) => x.eq_spec(&y),
+        (Err(x), Err(y)) => x.eq_spec(&y),
+        _ => false,
+    });
+//@trusted assume_specification <Result<T,E> as PartialEq>::eq is variant-wise equality
